@@ -90,6 +90,14 @@ def t_parent(rt, fut):
     return (yield fut)
 
 
+@asynq_dec()
+def t_runaway(rt, n):
+    if n <= 0:
+        return 0
+    v = yield t_runaway.asynq(rt, n - 1)
+    return v + 1
+
+
 STYLES_GEN = ["asynq", "pure", "method", "classmethod", "staticmethod", "proxy"]
 STYLES_PLAIN = ["plain", "pureplain"]
 
@@ -358,6 +366,7 @@ class HarnessRT(object):
         self.task_of_frame = {}
         self.evil = None
         self.evil_fired = 0
+        self.book = None
         self.live_ctx = {}
         self.live_na = {}
         self.ctx_faults = prog.get("ctx_faults")
@@ -369,6 +378,9 @@ class HarnessRT(object):
         self.before_probes = []
         self.after_probes = []
         self.close_probes = []
+        self.sync_probes = []
+        self.before_raise = None
+        self.before_count = 0
 
     def __repr__(self):
         return "rt"
@@ -608,6 +620,8 @@ class HarnessRT(object):
             leaf = HLeaf(kind, l, pos, ErrorFuture(e), inst)
         elif kind == "lazy":
             leaf = HLeaf(kind, l, pos, self._lazy(l[1], inst, l[2]), inst)
+        elif kind == "runaway":
+            leaf = HLeaf(kind, l, pos, t_runaway.asynq(self, l[1]), inst)
         else:
             raise HarnessFault("leaf %r" % (kind,))
         fr.futs.append(leaf)
@@ -646,18 +660,26 @@ class HarnessRT(object):
         self.sync_depth += 1
         callee = Frame(nid, path, fr)
         self.wait_frames.append(callee)
+        ok = False
         try:
-            return sync_call(self.style_of(nid), self, callee, how)
+            v = sync_call(self.style_of(nid), self, callee, how)
+            ok = True
+            return v
         finally:
             self.wait_frames.pop()
             self.sync_depth -= 1
             self.emit("sync_exit", fr.path, path)
+            for p in self.sync_probes:
+                p(self, fr, ok)
 
     # ---- scheduler events
     def _before(self, batch):
         self.emit("flush_before", getattr(batch, "bid", ("dbg", id(batch))))
         for p in self.before_probes:
             p(self, batch)
+        self.before_count += 1
+        if self.before_raise is not None and self.before_count == self.before_raise:
+            raise UserErr(("before-subscriber", self.before_count))
         ev = self.evil
         if ev is not None and ev[0] == "preflush" and getattr(batch, "bid", (None, None))[1] == ev[1]:
             self.evil_fired += 1
